@@ -298,8 +298,65 @@ def r3_always(ctx):
     return r
 
 
+def r4_unit_ids(ctx):
+    """create_namespaces_types interpreted abstractly (rules/absint.py; the per-namespace type generator is opaque) and the generated
+    unit-id enum read back: the id written into the script for a namespace is the namespace's name as configured (`my-ns`, not the
+    Rust identifier `my_ns`), and the client-side Deserialize maps exactly that text back to the same variant"""
+    from rules import absint
+    from rules.absint import AEval, C, CF, L, TOK, A, B, T
+    r = Rule("C17.R4", "a unit is embedded under its namespace's own name, which decodes back to the same unit",
+             "`lists, for each translation unit used by the request, exactly that unit's strings`: the entries are keyed by (locale, unit id); an id spelled "
+             "differently from what the client deserialises (e.g. the identifier form of a hyphenated namespace) leaves the used unit without an entry", floor=2)
+    ast = ctx.ast
+    fn = ast.fn(ML, "create_namespaces_types")
+    if fn is None:
+        r.missing("create_namespaces_types")
+        return r
+    absint.set_program(ast)
+    S = lambda x: ("str", x)  # noqa: E731
+    names = ["my-ns", "home", "a_b", "Caps"]
+
+    def key(n):
+        return CF("Key", name=S(n), ident=TOK(n.replace("-", "_")))
+
+    def tt(v):
+        if v[0] == "str":
+            return '"%s"' % v[1]
+        if v[0] == "ctor" and v[1] == "Key":
+            return absint.fields_of(v)["ident"][1]
+        return None
+    try:
+        for cfgv in (False, True):
+            ev = AEval(funcs={})
+            ev.cfg = lambda t, cfgv=cfgv: cfgv
+            ev.path_builtins["create_locale_type_inner"] = lambda a: TOK("TYPE_IMPL")
+            ev.builtins["unwrap_at"] = lambda rv, a: rv[2][0] if rv[0] == "ctor" and rv[2] else rv
+            ev.totokens = tt
+            nss = L(*[CF("Namespace", key=key(n), locales=A("locales-of-" + n)) for n in names])
+            keys = L(*[T(key(n), CF("BuildersKeysInner", **{"0": A("keys-of-" + n)})) for n in names])
+            v = ev.run_fn(fn, [TOK("KEYS"), TOK("Locale"), TOK("UnitId"), nss, keys, B(False), C("None")])
+            if isinstance(v, str) or v[0] != "tok":
+                raise absint.Unknown(v if isinstance(v, str) else "create_namespaces_types returns %s" % absint.fmt(v)[:60])
+            txt = v[1]
+            m = re.search(r"pub fn as_str \(self\) -> &' static str \{match self \{(.*?)\}\}", txt)
+            arms = dict(re.findall(r'UnitId :: (\w+) => ("[^"]*"|[^,]+?) ,', m.group(1))) if m else None
+            want = {n.replace("-", "_"): '"%s"' % n for n in names}
+            label = "cfg!(..) all %s" % ("on" if cfgv else "off")
+            if arms != want:
+                r.viol("R4:create_namespaces_types#as_str", "the unit ids are %s, the namespaces are named %s [%s]" % (arms, want, label), file=fn.file, line=fn.line)
+                continue
+            de = dict((b_, a_) for a_, b_ in re.findall(r'("[^"]*") => Ok \(UnitId :: (\w+)\)', txt))
+            if de != want:
+                r.viol("R4:create_namespaces_types#deserialize", "the client decodes %s, the ids written are %s [%s]" % (de, want, label), file=fn.file, line=fn.line)
+                continue
+            r.inst("create_namespaces_types [%s]" % label, "%d namespaces (hyphenated, with underscore, capitalised): as_str = the configured name, Deserialize maps that text back to the same variant" % len(names))
+    except absint.Unknown as u:
+        r.viol("R4:undecided", "the generator cannot be interpreted on the current code (%s): not decided on this tree (fail closed)" % str(u)[:300], file=fn.file, line=fn.line)
+    return r
+
+
 def run(ctx):
-    return [r1_escape(ctx), r2_who(ctx), r3_always(ctx)]
+    return [r1_escape(ctx), r2_who(ctx), r3_always(ctx), r4_unit_ids(ctx)]
 
 
 MANIFEST_ENTRY = {
